@@ -105,7 +105,8 @@ def _one_round(fn, only_params=False):
             continue
         for n in ns:
             a = n.ast
-            if only_params and not getattr(a, "_inline_param", False):
+            if only_params and not getattr(a, "_inline_param", False) and \
+                    not (isinstance(a, ast.Assign) and _flag_expr(a.value)):
                 continue
             single_use_param = getattr(a, "_inline_param", False) and \
                 _count_loads(fn, name) == 1
@@ -144,6 +145,21 @@ def _one_round(fn, only_params=False):
     sub = _Subst(repl)
     sub.visit(fn)
     return sub.count > 0
+
+
+def _flag_expr(e):
+    """`not x`, `x and not y`, `x is None`: a truth value computed from
+    names alone; a local bound to one is a name for the test."""
+    if isinstance(e, ast.UnaryOp) and isinstance(e.op, ast.Not):
+        return _flag_expr(e.operand) or isinstance(e.operand, ast.Name)
+    if isinstance(e, ast.BoolOp):
+        return all(_flag_expr(v) or isinstance(v, ast.Name)
+                   for v in e.values)
+    if isinstance(e, ast.Compare) and len(e.ops) == 1 and isinstance(
+            e.ops[0], (ast.Is, ast.IsNot)):
+        return isinstance(e.left, ast.Name) and isinstance(
+            e.comparators[0], ast.Constant)
+    return False
 
 
 def _count_loads(fn, name):
